@@ -92,6 +92,9 @@ type callRec struct {
 }
 
 func (c *callRec) isDone() bool {
+	if c == nil {
+		return true
+	}
 	c.mu.Lock()
 	defer c.mu.Unlock()
 	return c.done
